@@ -485,10 +485,7 @@ class eval_abs(object):
 
     def eval_op_arshift(self, args, op_size, cast_int):
         r = args[1]#&0x1F
-        if args[0]>=0:
-            ret_value = ((args[0]&mymaxuint[op_size])>>r)
-        else:
-            ret_value = -((-args[0])>>r)
+        ret_value = tab_intsize[op_size](args[0])>>r
         return ret_value
 
 
